@@ -99,6 +99,9 @@ func init() {
 				e1run("map-same-n2-d5", "map", 2, 5, "same", o, nil, "", 0),
 				e1run("list-same-n2-d4", "list", 2, 4, "same", o, nil, "live", 0),
 				e1run("docarr-same-n2-d3", "doc", 2, 3, "arr same", o, nil, "live", 0),
+				// the application hands the same map object over several times and changes it in between (also inside transactions, also before a rollback)
+				e1runS("doc-alias-n2-d3-tx", "doc", 2, 3, "alias tx", o, 1, 0),
+				e1runS("map-alias-n2-d3-tx", "map", 2, 3, "rich alias tx", o, 1, 0),
 				e1runSP("list-live-n2-d2-tx", "list", 2, 2, "tx", o, 1, 0, "live"),
 			}
 		} else {
